@@ -359,6 +359,119 @@ func runC37(c *Ctx) {
 	}
 	c.Floor(r3, 6)
 
+	// ---- gitlink-not-an-edge: a submodule entry pins a commit of another history; it is not a reachability edge. In every
+	// loop over Tree.Entries in the package, the entry's hash is marked seen, recorded or followed only across the
+	// "not a submodule" edge (otherwise a commit that a have merely pins is treated as already present and dropped from
+	// the wants, or a gitlink's commit is sent as if it were a blob)
+	const r3g = "gitlink-not-an-edge"
+	nG := 0
+	for _, fi := range p.FuncsIn(rvShort) {
+		if fi.Decl.Body == nil || p.isTestFile(fi.Decl.Pos()) {
+			continue
+		}
+		f := p.FlowOf(fi)
+		ast.Inspect(fi.Decl.Body, func(n ast.Node) bool {
+			rs, ok := n.(*ast.RangeStmt)
+			if !ok || !mentionsField(rs.X, entriesF) || rs.Value == nil {
+				return true
+			}
+			elem := objOf(info, rs.Value)
+			usesElemHash := func(e ast.Expr) bool {
+				found := false
+				ast.Inspect(e, func(x ast.Node) bool {
+					if sel, ok := x.(*ast.SelectorExpr); ok && sel.Sel.Name == "Hash" && objOf(info, sel.X) == elem {
+						found = true
+					}
+					return !found
+				})
+				return found
+			}
+			// sinks inside this loop: seen[e.Hash] = …, append(…, e.Hash), a call that receives e.Hash
+			isSink := func(nd ast.Node) bool {
+				if nd.Pos() < rs.Body.Pos() || nd.End() > rs.Body.End() {
+					return false
+				}
+				switch v := nd.(type) {
+				case *ast.AssignStmt:
+					for _, l := range v.Lhs {
+						if ix, ok := unparen(l).(*ast.IndexExpr); ok && usesElemHash(ix.Index) {
+							if tv := info.Types[ix.X]; tv.Type != nil {
+								if _, isMap := tv.Type.Underlying().(*types.Map); isMap {
+									return true
+								}
+							}
+						}
+					}
+					for _, r := range v.Rhs {
+						if call, ok := unparen(r).(*ast.CallExpr); ok {
+							for _, a := range call.Args {
+								if usesElemHash(a) {
+									return true
+								}
+							}
+						}
+					}
+				case *ast.ExprStmt:
+					if call, ok := v.X.(*ast.CallExpr); ok {
+						for _, a := range call.Args {
+							if usesElemHash(a) {
+								return true
+							}
+						}
+					}
+				}
+				return false
+			}
+			sinks := f.Locs(isSink)
+			if len(sinks) == 0 {
+				return true // an index-building loop (names to hashes of a parent tree): nothing is marked or followed
+			}
+			notSubmodule := func(b *cfg.Block, i int) bool {
+				for _, fact := range f.EdgeFacts(b, i) {
+					be, ok := unparen(fact.Atom).(*ast.BinaryExpr)
+					if !ok || (be.Op != token.EQL && be.Op != token.NEQ) {
+						continue
+					}
+					for _, pair := range [][2]ast.Expr{{be.X, be.Y}, {be.Y, be.X}} {
+						sel, ok := unparen(pair[0]).(*ast.SelectorExpr)
+						if !ok || sel.Sel.Name != "Mode" || objOf(info, sel.X) != elem {
+							continue
+						}
+						o := objOfSel(info, pair[1])
+						if o == nil {
+							continue
+						}
+						switch o.Name() {
+						case "Submodule":
+							if (be.Op == token.EQL) != fact.Truth {
+								return true // e.Mode == Submodule is false here
+							}
+						case "Dir", "Regular", "Executable", "Symlink", "Deprecated":
+							if (be.Op == token.EQL) == fact.Truth {
+								return true // the mode is known to be another one
+							}
+						}
+					}
+				}
+				return false
+			}
+			nG++
+			c.Analysed(fi)
+			var bad *Hit
+			for _, s := range sinks {
+				s := s
+				if h := f.Search(SearchOpts{Starts: []Loc{f.Entry()}, Sink: func(nd ast.Node) bool { return nd == s.B.Nodes[s.Idx] }, BlockEdge: notSubmodule}); h != nil && bad == nil {
+					bad = h
+				}
+			}
+			key := fmt.Sprintf("%s:entries-loop@%s", fi.Name(), exprString(rs.X))
+			c.Check(bad == nil, r3g, key, rs.Pos(), orStr(ifStr(bad != nil, "a tree entry's hash is marked, recorded or followed on a path that has not excluded submodule entries: the commit a gitlink pins is treated as an object of this history"+hitLines(f, bad)),
+				"entry hashes are used only after submodule entries were excluded"))
+			return true
+		})
+	}
+	c.Check(nG >= 3, r3g, rvShort+":entry-loops", 0, itoa(nG)+" loops over tree entries that mark, record or follow entry hashes examined")
+
 	// ---- early-stop
 	const r4 = "early-stop"
 	allStale := p.Func(rvShort + ".allStale")
